@@ -129,7 +129,7 @@ func perturbModel(rt *rapid.T, mp *onnx.ModelProto) string {
 		}
 	case "init-dims":
 		tp := g.Initializer[rapid.IntRange(0, len(g.Initializer)-1).Draw(rt, "init")]
-		switch rapid.IntRange(0, 5).Draw(rt, "dimsKind") {
+		switch rapid.IntRange(0, 6).Draw(rt, "dimsKind") {
 		case 0:
 			tp.Dims = nil
 		case 1:
@@ -140,6 +140,14 @@ func perturbModel(rt *rapid.T, mp *onnx.ModelProto) string {
 			}
 		case 3:
 			tp.Dims = []int64{1 << 62, 1 << 62, 16}
+		case 6:
+			// every dim negated: an even number of negative dims keeps the product positive
+			for i := range tp.Dims {
+				tp.Dims[i] = -tp.Dims[i]
+			}
+			if len(tp.Dims) == 1 {
+				tp.Dims = append(tp.Dims, -1)
+			}
 		case 4:
 			tp.Dims = []int64{-1 << 63}
 		default:
@@ -334,6 +342,39 @@ func TestC18(t *testing.T) {
 			known[n] = true
 		}
 		i := rapid.IntRange(0, len(mp.Graph.Node)-1).Draw(rt, "node")
+		// optionally make the chosen node a dead branch: none of its results is a graph output or
+		// read by another node (the operator type must still be refused, not skipped)
+		dead := false
+		if rapid.Bool().Draw(rt, "deadBranch") {
+			consumed := false
+			for _, n := range mp.Graph.Node {
+				for _, in := range n.Input {
+					for _, o := range mp.Graph.Node[i].Output {
+						if in != "" && in == o {
+							consumed = true
+						}
+					}
+				}
+			}
+			if !consumed {
+				var keep []*onnx.ValueInfoProto
+				for _, vi := range mp.Graph.Output {
+					mine := false
+					for _, o := range mp.Graph.Node[i].Output {
+						if vi.Name == o {
+							mine = true
+						}
+					}
+					if !mine {
+						keep = append(keep, vi)
+					}
+				}
+				if len(keep) > 0 {
+					mp.Graph.Output = keep
+					dead = true
+				}
+			}
+		}
 		orig := mp.Graph.Node[i].OpType
 		name := rapid.SampledFrom([]string{"", "Identity", "Erf", "Dropout", "LeakyRelu", "relu", "RELU", orig + "V2", "ai.onnx." + orig, " " + orig}).Draw(rt, "unknown")
 		if known[name] {
@@ -341,7 +382,7 @@ func TestC18(t *testing.T) {
 		}
 		mp.Graph.Node[i].OpType = name
 		lr := loadBytes(marshalModel(mp))
-		ev.Case("unknown-operator", fmt.Sprintf("node %d %s -> %q in %v", i, orig, name, gg), true, "position-"+fmt.Sprint(min(i, 3)))
+		ev.Case("unknown-operator", fmt.Sprintf("node %d %s -> %q in %v", i, orig, name, gg), true, "position-"+fmt.Sprint(min(i, 3)), fmt.Sprintf("dead-branch-%v", dead))
 		if lr.panicked {
 			rt.Fatalf("C18 violated: loading a model with operator type %q panics: %v", name, lr.panicVal)
 		}
@@ -393,7 +434,7 @@ func FuzzC18(f *testing.F) {
 	// hostile constants: payload length off by one, negative varint dims, huge dims
 	tp := encodeTensor("w", []int{2, 2}, []float32{1, 2, 3, 4}, false)
 	tp.RawData = tp.RawData[:15]
-	for _, dims := range [][]int64{{2, 2}, {-1}, {1 << 62, 1 << 62}, {0}, {3}} {
+	for _, dims := range [][]int64{{2, 2}, {-1}, {1 << 62, 1 << 62}, {0}, {3}, {-2, -2}, {-4, -1}, {-1, -1, 4}} {
 		t2 := proto.Clone(tp).(*onnx.TensorProto)
 		t2.Dims = dims
 		g := &onnx.GraphProto{Initializer: []*onnx.TensorProto{t2}}
